@@ -20,6 +20,16 @@ Histories are executed on ONE long-lived thermodynamics object per worker and da
 clearCache() before each history, which is itself in the alphabet).  Oracle for every history: the answer of the
 LAST query equals the answer of the same query on a fresh object, repeating it gives the same answer (bit-identical
 where the operation order is the same), and every argument array is bit-identical after the call.
+
+Signature families and what they mean (db = alzr | cuti | ni | ams):
+  argmut/<db>/<query>/<argument>                       an argument array was modified by the call
+  hist/<db>/<query>/cache=cold/repeat-differs          first call (no cache) and second call (cache) disagree
+  hist/<db>/<query>/cache=warm*/differs-from-fresh     answer after a history differs from the fresh-object answer
+        cache=warm-by-eq / warm-by-tangent: layout of the cached driving-force composition sets ([matrix, precipitate]
+        written by the approximate/curvature methods, [precipitate] written by the tangent method)
+  hist/<db>/<query>/repeat-not-bit-identical           removeCache=True / cache-free query not reproducible bit for bit
+  batch/<db>/<query>/...                               array evaluation differs from point-wise evaluation
+  hashtable/disabled/*, hashtable/false-hit/s=<digits>/<x|T>-differs, singlephase/*    diffusion composition cache
 """
 import itertools
 import math
@@ -577,7 +587,7 @@ def ht_replay(hist):
     """Replays a history on a fresh real HashTable and on the reference model; returns (table, model, violations of
     the last operation, outcome of the last operation)."""
     h = HashTable()
-    model = {'on': True, 's': 4, 'added': []}      # added: (point name, token) since the last clear
+    model = {'on': True, 's': 4, 'added': [], 'added_off': []}      # added: (point name, token) since the last clear
     viol, outcome = [], None
     for k, op in enumerate(hist):
         lastop = (k == len(hist) - 1)
@@ -593,6 +603,7 @@ def ht_replay(hist):
                 outcome = 'add'
             else:
                 outcome = 'add-disabled'
+                model['added_off'].append((arg, token))
                 if h.cachedData != before:
                     v.append({'sig': 'hashtable/disabled/add-stores',
                               'msg': 'history %s: addToHashTable stored a value although caching was switched off'
@@ -610,7 +621,12 @@ def ht_replay(hist):
                                  % (','.join(hist[:k + 1]), got)})
             else:
                 src = got.split(':')[1] if isinstance(got, str) and ':' in got else None
-                if src is None or (src, got) not in model['added']:
+                if (src, got) in model['added_off']:
+                    outcome = 'hit-stored-while-disabled'
+                    v.append({'sig': 'hashtable/disabled/add-stores/served-later',
+                              'msg': 'history %s: returned %r which was handed to addToHashTable while caching was '
+                                     'switched off' % (','.join(hist[:k + 1]), got)})
+                elif src is None or (src, got) not in model['added']:
                     outcome = 'hit-unknown'
                     v.append({'sig': 'hashtable/hit/unknown-value',
                               'msg': 'history %s: returned %r which was not added since the last clear'
@@ -631,6 +647,7 @@ def ht_replay(hist):
         elif name == 'clear':
             h.clearCache()
             model['added'] = []
+            model['added_off'] = []
             outcome = 'clear'
             if len(h.cachedData) != 0:
                 v.append({'sig': 'hashtable/clear/not-empty', 'msg': 'history %s' % ','.join(hist[:k + 1])})
@@ -646,7 +663,7 @@ def ht_replay(hist):
 def ht_canon(h, model):
     return repr((bool(h._cache) if h._cache is not None else None, int(h.hash_sensitivity),
                  sorted((repr(k), str(v)) for k, v in h.cachedData.items()), model['on'], model['s'],
-                 sorted(model['added'])))
+                 sorted(model['added']), sorted(model['added_off'])))
 
 
 def ht_expand(case):
@@ -833,9 +850,10 @@ def run(ctx):
         for h in histories(alpha, 3):
             mcases.append({'db': db, 'hist': h})
         if not quick:
-            # depth 4 over every symbol that reads or writes a cache (the Workspace-based interfacial-composition
-            # queries hold no state and are covered to depth 3 above)
-            sub = [s for s in alpha if not s.startswith('ic')]
+            # depth 4 over every symbol that leaves a cache behind, plus clearCache (the Workspace-based
+            # interfacial-composition queries hold no state, removeCache=True queries end with empty caches; both are
+            # covered to depth 3 here and removeCache=True to depth 4 in 'df-hist')
+            sub = [s for s in alpha if not s.startswith('ic') and 'drop' not in s.split('|')]
             ctx.bounds.setdefault('mixed_depth4_alphabet', {})[db] = sub
             for h in itertools.product(sub, repeat=4):
                 if h[-1] != 'clear':
